@@ -64,6 +64,9 @@ class Kern:
         self.call_hooks = {}      # name -> callable(args) giving the value of an input call (digitalRead, millis ...)
         self.steps = 0
         self.max_steps = max_steps
+        self.record_defaults = {}  # type-name prefix -> factory of a default-constructed record
+        self.heap_freed = set()   # ids of buffers released by delete[] (the objects are kept alive in heap_all)
+        self.heap_all = []
 
     def tick(self):
         self.steps += 1
@@ -83,6 +86,8 @@ class Kern:
             if isinstance(v, str):
                 # string / character literal (clang keeps the quotes of string literals)
                 return v[1:-1] if len(v) >= 2 and v[0] == '"' and v[-1] == '"' else v
+            if v is None:
+                return None             # nullptr
             raise KernUnsupported(f"literal {v!r}")
         if t == "var":
             if e[1] in self.env:
@@ -97,6 +102,8 @@ class Kern:
             raise KernUnsupported(f"member {e[2]} of a non-record value")
         if t == "index":
             base, i_ = self.ev(e[1]), self.ev(e[2])
+            if isinstance(base, list) and id(base) in self.heap_freed:
+                raise KernUnsupported("read of a freed buffer")
             if isinstance(base, (str, list)) and isinstance(i_, int):
                 if 0 <= i_ < len(base):
                     return base[i_]
@@ -110,6 +117,32 @@ class Kern:
             return conv(e[1], self.ev(e[2][0]))
         if t == "ctor" and len(e[2]) == 0 and (e[1] or "").startswith("String"):
             return ""
+        if t == "new":
+            n_ = self.ev(e[2]) if e[2] is not None else 1
+            if not isinstance(n_, int) or n_ < 0 or n_ > 100000:
+                raise KernUnsupported(f"new[] of {n_!r} elements")
+            buf = [0] * n_
+            if e[4] is not None and e[4][0] == "init":
+                for j_, x_ in enumerate(e[4][1][:n_]):
+                    buf[j_] = self.ev(x_)
+            self.heap_all.append(buf)
+            return buf
+        if t == "delete":
+            b_ = self.ev(e[1])
+            if b_ is None:
+                return 0
+            if not isinstance(b_, list):
+                raise KernUnsupported("delete of a non-buffer")
+            if id(b_) in self.heap_freed:
+                raise KernUnsupported("double free")
+            self.heap_freed.add(id(b_))
+            return 0
+        if t == "un" and e[1] == "&":
+            tgt_ = e[2]
+            if tgt_[0] == "var" and tgt_[1] in self.env:
+                v_ = self.env[tgt_[1]]
+                return ("&", id(v_)) if isinstance(v_, (dict, list)) else ("&", tgt_[1], id(self))
+            raise KernUnsupported("address of a non-variable")
         if t == "un":
             a = self.ev(e[2])
             if e[1] == "-":
@@ -131,7 +164,7 @@ class Kern:
             return self.ev(e[2]) if self.ev(e[1]) else self.ev(e[3])
         if t == "assign":
             tgt = e[2]
-            if tgt[0] not in ("var", "member"):
+            if tgt[0] not in ("var", "member", "index"):
                 raise KernUnsupported("assignment to a non-variable")
             v = self.ev(e[3])
             if e[1] != "=":
@@ -139,7 +172,7 @@ class Kern:
             return self._store(tgt, v)
         if t in ("pre", "post"):
             tgt = e[2]
-            if tgt[0] not in ("var", "member"):
+            if tgt[0] not in ("var", "member", "index"):
                 raise KernUnsupported("increment of a non-variable")
             old = self.ev(tgt)
             new = self._store(tgt, old + (1 if e[1] == "++" else -1))
@@ -158,6 +191,8 @@ class Kern:
             if nm in ("round", "lround", "roundf"):
                 a = args[0]
                 return int(a + 0.5) if a >= 0 else -int(-a + 0.5)
+            if nm is not None and callable(self.env.get(nm)):
+                return self.env[nm](*args)
             self.events.append((nm, tuple(args)))
             if nm in self.call_hooks:
                 return self.call_hooks[nm](tuple(args))
@@ -189,6 +224,16 @@ class Kern:
         raise KernUnsupported(f"expression {t}")
 
     def _store(self, tgt, v):
+        if tgt[0] == "index":
+            base, i_ = self.ev(tgt[1]), self.ev(tgt[2])
+            if not isinstance(base, list) or not isinstance(i_, int):
+                raise KernUnsupported("store through a non-buffer")
+            if id(base) in self.heap_freed:
+                raise KernUnsupported("write to a freed buffer")
+            if not 0 <= i_ < len(base):
+                raise KernUnsupported(f"write at index {i_} outside a {len(base)}-element buffer")
+            base[i_] = v
+            return v
         if tgt[0] == "var":
             v = conv(self.types.get(tgt[1]), v)
             self.env[tgt[1]] = v
@@ -203,6 +248,9 @@ class Kern:
     @staticmethod
     def arith(op, a, b):
         both_int = isinstance(a, int) and isinstance(b, int)
+        if op in ("==", "!=") and (a is None or b is None or isinstance(a, (tuple, list)) or isinstance(b, (tuple, list))):
+            same = (a is b) if isinstance(a, list) or isinstance(b, list) else (a == b)
+            return int(same == (op == "=="))
         if isinstance(a, str) or isinstance(b, str):
             if op == "+" and isinstance(a, str) and isinstance(b, str):
                 return a + b
@@ -252,7 +300,10 @@ class Kern:
                     return
                 done.add(st["name"])
             self.types[st["name"]] = st["type"]
-            if st["init"] is not None:
+            mk = next((f_ for p_, f_ in self.record_defaults.items() if (st["type"] or "").replace("const ", "").startswith(p_)), None)
+            if mk is not None and (st["init"] is None or st["init"][0] == "ctor" and not st["init"][2]):
+                self.env[st["name"]] = mk()
+            elif st["init"] is not None:
                 self.env[st["name"]] = conv(st["type"], self.ev(st["init"]))
             else:
                 self.env[st["name"]] = 0
@@ -310,6 +361,9 @@ class CallKern(Kern):
             sub = CallKern(self.fns, consts=self.consts, max_steps=self.max_steps)
             sub.events = self.events
             sub.call_hooks = self.call_hooks
+            sub.record_defaults = self.record_defaults
+            sub.heap_freed = self.heap_freed
+            sub.heap_all = self.heap_all
             sub.steps = self.steps
             for (pn, pt), v in zip(fn["params"], args):
                 base_t = (pt or "").replace("const ", "").replace("&", "").strip()
